@@ -129,5 +129,10 @@ func (b *byWithoutFilterCol) String(ctx *sql.Ctx, opts ...int) (string, error) {
 		fn = "NOT IN"
 	}
 
+	if b.by && len(sqlLabels) == 0 {
+		// by (): no label is kept (`k IN ()` is not valid ClickHouse)
+		return fmt.Sprintf("mapFilter((k,v) -> 0, %s)", str), nil
+	}
+
 	return fmt.Sprintf("mapFilter((k,v) -> k %s (%s), %s)", fn, strings.Join(sqlLabels, ","), str), nil
 }
